@@ -41,9 +41,13 @@ def search_jobs(prop, tier):
 
 
 def run(tier, t0, only=None):
-    res, info = run_wf("C15", tier, only=only)
+    from concurrent.futures import ThreadPoolExecutor
     js = [j for j in search_jobs("C15", tier) if not only or only in j.name]
-    res += run_jobs(js)
+    with ThreadPoolExecutor(2) as ex:          # the two families share the 16 worker slots of their own pools
+        f1 = ex.submit(run_wf, "C15", tier, None, (2024, 2), True, None, only)
+        f2 = ex.submit(run_jobs, js, 8)
+        res, info = f1.result()
+        res += f2.result()
     return finish(
         "C15", tier, res, t0,
         assumptions=["real rules are deterministic and argument-preserving (FRAME obligations of this check) so the toy registry is representative of the search's view of a rule",
